@@ -21,7 +21,7 @@ import rustdebug
 LEVEL = "proof"
 CONE = ["Props/C04.v", "Props/C05.v"] + ["Iso/%s" % f for f in sorted(__import__("os").listdir(common.COQ + "/theories/Iso")) if f.endswith(".v")]
 CANON_PREFIX = ("ftyp", "mvhd", "tkhd", "mdhd", "mehd", "tfdt", "elst", "mfhd", "trex", "smhd", "vmhd", "tfhd", "trun", "stts", "ctts", "stss", "stco", "co64",
-                "stsz_var", "stsc", "emsg", "hdlrc", "data", "vpcc", "avc1_1_1", "avc1_2_2", "hev1", "vp09", "tx3g", "mvex", "traf", "moof", "stsd", "stbl", "minf", "mdia", "trak")
+                "stsz_var", "stsc", "emsg", "hdlrc", "data", "vpcc", "avc1_1_1", "avc1_2_2", "avc1_1_3", "avc1_2_3", "avc1_31_", "hev1", "vp09", "tx3g", "mvex", "traf", "moof", "stsd", "stbl", "minf", "mdia", "trak")
 
 
 def canon(val):
